@@ -78,6 +78,50 @@ def int_grid_instance(K, values=(0, 1, 2)):
                     crosscheck=False, native_n=1, weight=30)
 
 
+def score_matrix_instance(metric, K, F, T):
+    """The score matrix IS the named similarity of reference row and estimate row: S[f, k_ref, k_est] = sim(ref[k_ref, f], mask[k_est, f]).
+    With 'optimal attains the maximum over all permutations' (above) and 'apply_mapping indexes rows by the mapping' (C14) these are the
+    hypotheses of lean/Oracle.lean, which gives the inversion for every K and T."""
+    from pb_bss import permutation_alignment as pa
+    TINY_ = float(np.finfo(np.float64).tiny)
+
+    def make(B):
+        sp = B.sp
+        inp = {'mask': B.real('m', (K, F, T), lo=0.0, dist=(0.0, 1.0)), 'ref': B.real('r', (K, F, T), lo=0.0, dist=(0.0, 1.0))}
+        if metric == 'cos':
+            for name in ('mask', 'ref'):
+                c = cells(inp[name])
+                for k in range(K):
+                    for f in range(F):
+                        B.require('row-nonzero', sp.gt(sp.sum(c[k, f, t] * c[k, f, t] for t in range(T)), 0.0))
+        return inp
+
+    def call(inp):
+        return pa._ScoreMatrix.from_name(metric)(inp['mask'], inp['ref'])
+
+    def ensures(sp, inp, out):
+        yield 'shape', sp._f(shape_of(out) == (F, K, K))
+        if shape_of(out) != (F, K, K):
+            return
+        S_, m, r = cells(out), cells(inp['mask']), cells(inp['ref'])
+        for f in range(F):
+            for i in range(K):          # reference class
+                for j in range(K):      # estimate class
+                    dot = sp.sum(r[i, f, t] * m[j, f, t] for t in range(T))
+                    if metric == 'multiply':
+                        yield 'score-is-the-inner-product[f=%d,ref=%d,est=%d]' % (f, i, j), sp.eq(S_[f, i, j], dot)
+                    elif metric == 'euclidean':
+                        d2 = sp.sum((m[j, f, t] - r[i, f, t]) * (m[j, f, t] - r[i, f, t]) for t in range(T))
+                        yield 'score-is-minus-the-distance[f=%d,ref=%d,est=%d]' % (f, i, j), sp.and_(sp.le(S_[f, i, j], 0.0), sp.eq(S_[f, i, j] * S_[f, i, j], d2))
+                    else:
+                        nm = sp.max(sp.sqrt(sp.sum(m[j, f, t] * m[j, f, t] for t in range(T))), TINY_)
+                        nr = sp.max(sp.sqrt(sp.sum(r[i, f, t] * r[i, f, t] for t in range(T))), TINY_)
+                        yield 'score-is-the-cosine[f=%d,ref=%d,est=%d]' % (f, i, j), sp.eq(S_[f, i, j] * nm * nr, dot)
+
+    return Instance('C15', PA + '_ScoreMatrix.%s' % metric, 'K%dF%dT%d-score-matrix-is-the-named-similarity' % (K, F, T), make, call, ensures,
+                    timeout=30.0, weight=K * K * F)
+
+
 def oracle_instance(K, F, T, metric, algorithm, perm_field, two_d=False):
     """Oracle aligner applied to a per-frequency permutation of a symbolic reference returns the reference."""
     from pb_bss import permutation_alignment as pa
@@ -306,6 +350,9 @@ def instances(tier):
     if th:
         for p in perms3:
             out.append(oracle_instance(3, 1, 3, 'multiply', 'greedy', np.array([p]).T))
+    for metric in ('multiply', 'euclidean', 'cos'):
+        out.append(score_matrix_instance(metric, 2, 2, 2))
+        out.append(score_matrix_instance(metric, 3, 1, 2))
     from .common import lemma_instance
     out.append(lemma_instance('C15', 'oracle', 'lemma:any-maximal-assignment-restores-the-reference-for-every-K'))
     out.append(lsa_bounded_instance())
